@@ -58,18 +58,91 @@ example : refNeeds (.bin .pow (.un .neg tA) tB) = true ∧ refNeeds (.un .neg (.
 
 /-! ## 2. the character break table covers every fusing pair -/
 
+/-- the statement of `break_table_sound` for one pair of code points -/
+def breakSoundAt (a b : Nat) : Prop :=
+  lexFuse a b = true → shouldBreakWithSpace a b = true ∨ inPairs neverJuxtaposed a b = true
+
+instance (a b : Nat) : Decidable (breakSoundAt a b) := by unfold breakSoundAt; exact inferInstance
+
 set_option maxRecDepth 100000 in
+theorem break_table_sound_lo : ∀ a : Fin 64, ∀ b : Fin 128, breakSoundAt a.val b.val := by
+  decide +kernel
+
+set_option maxRecDepth 100000 in
+theorem break_table_sound_hi : ∀ a : Fin 64, ∀ b : Fin 128, breakSoundAt (a.val + 64) b.val := by
+  decide +kernel
+
 /-- Whenever two adjacent ASCII characters would fuse for a lexer (reference token classes),
 `should_break_with_space` asks for a separator, or the pair is one of the listed symbol pairs
-the writers never put at a push boundary. -/
-theorem break_table_sound :
-    ∀ a : Fin 128, ∀ b : Fin 128,
-      lexFuse a.val b.val = true →
-        shouldBreakWithSpace a.val b.val = true ∨ (a.val, b.val) ∈ neverJuxtaposed := by
-  decide +kernel
+the writers never put at a push boundary (`neverJuxtaposed`, each justified in Spec.lean). -/
+theorem break_table_sound (a b : Nat) (ha : a < 128) (hb : b < 128) :
+    lexFuse a b = true →
+      shouldBreakWithSpace a b = true ∨ inPairs neverJuxtaposed a b = true := by
+  by_cases h : a < 64
+  · exact break_table_sound_lo ⟨a, h⟩ ⟨b, hb⟩
+  · have := break_table_sound_hi ⟨a - 64, by omega⟩ ⟨b, hb⟩
+    have e : a - 64 + 64 = a := by omega
+    rw [e] at this
+    exact this
 
 -- non-vacuity: fusing pairs exist and are caught by the table itself (`1` `.`, `a` `b`, `-` `-`)
 example : lexFuse 49 46 = true ∧ shouldBreakWithSpace 49 46 = true := by decide
-example : lexFuse 97 98 = true ∧ lexFuse 45 45 = true ∧ (45, 45) ∉ neverJuxtaposed := by decide
+example : lexFuse 97 98 = true ∧ lexFuse 45 45 = true ∧ inPairs neverJuxtaposed 45 45 = false := by decide
+
+/-! ## 3. the printed tokens read back as the same tree, for ALL expressions -/
+
+/-- Full-strength statement: for every expression tree, the reference parser (given enough
+fuel) reads the tokens darklua writes back as a tree equal to the source tree modulo
+operand-position parentheses (a negative literal being a unary minus on a number, as for any
+lexer). -/
+def print_parses_back_full : Prop :=
+  ∀ e : E, ∃ F, ∀ f, F ≤ f → ∃ t, parseE f (printE e) = some t ∧ norm t = norm (reify e)
+
+/-- Witness of finding F23: `Binary(^, Number(-k), x)` is written `-k ^ x`. -/
+def f23Witness : E := .bin .pow (.negnum 0) (.atom 1)
+
+/-- The full statement is false of the code (finding F23). -/
+theorem print_parses_back_full_false : ¬ print_parses_back_full := by
+  intro h
+  obtain ⟨F, hF⟩ := h f23Witness
+  -- what the text really means
+  obtain ⟨F', hF'⟩ := parse_of_WP (.un .neg (.bin .pow (.atom 0) (.atom 1))) (by decide)
+  obtain ⟨t, ht, hn⟩ := hF (max F F') (by omega)
+  have h2 := hF' (max F F') (by omega)
+  have hp : printE f23Witness = flat (.un .neg (.bin .pow (.atom 0) (.atom 1))) := by decide
+  rw [hp, h2] at ht
+  cases ht
+  revert hn
+  decide
+
+/-- Under H₂ (no negative literal as left operand of `^` or directly under `::`) the statement
+holds for every expression: by structural induction (`sub_flat`, `WP_addParens`). -/
+theorem print_parses_back_partial (e : E) (h : H2 e = true) :
+    ∃ F, ∀ f, F ≤ f → ∃ t, parseE f (printE e) = some t ∧ norm t = norm (reify e) := by
+  obtain ⟨F, hF⟩ := parse_of_WP (addParens e) (WP_addParens e h)
+  refine ⟨F, fun f hf => ⟨reify (addParens e), ?_, norm_reify_addParens e⟩⟩
+  rw [printE_eq_flat]
+  exact hF f hf
+
+/-- The parser's answer is exactly the tree with the parentheses darklua adds (nothing else
+is lost or invented). -/
+theorem print_parses_exact (e : E) (h : H2 e = true) :
+    ∃ F, ∀ f, F ≤ f → parseE f (printE e) = some (reify (addParens e)) := by
+  obtain ⟨F, hF⟩ := parse_of_WP (addParens e) (WP_addParens e h)
+  exact ⟨F, fun f hf => by rw [printE_eq_flat]; exact hF f hf⟩
+
+-- non-vacuity: H₂ holds of the design's examples, and the driver's fuel is enough for them
+example : H2 (.un .neg (.bin .pow tA tB)) = true ∧
+    parseE 20 (printE (.un .neg (.bin .pow tA tB))) = some (.un .neg (.bin .pow tA tB)) := by decide  -- -x^2
+example : H2 (.bin .pow (.un .neg tA) tB) = true ∧
+    parseE 20 (printE (.bin .pow (.un .neg tA) tB)) = some (.bin .pow (.paren (.un .neg tA)) tB) := by decide  -- (-x)^2
+example : parseE 20 (printE (.bin .pow tA (.un .neg tB))) = some (.bin .pow tA (.un .neg tB)) := by decide  -- 2^-x
+example : parseE 20 (printE (.bin .concat tA (.bin .concat tB tC))) = some (.bin .concat tA (.bin .concat tB tC)) ∧
+    parseE 20 (printE (.bin .concat (.bin .concat tA tB) tC)) = some (.bin .concat (.paren (.bin .concat tA tB)) tC) := by
+  decide
+example : parseE 20 (printE (.un .not (.bin .eq tA tB))) = some (.un .not (.paren (.bin .eq tA tB))) := by decide
+example : H2 (.bin .add (.ifexp tC tA tB) tA) = true ∧
+    parseE 30 (printE (.bin .add (.ifexp tC tA tB) tA)) = some (.bin .add (.paren (.ifexp tC tA tB)) tA) := by decide
+example : H2 f23Witness = false ∧ H2 (.bin .pow tA (.negnum 0)) = true := by decide
 
 end DarkluaModel.C02
